@@ -6,12 +6,14 @@ Pick(S) == RandomElement(S)
 MInit == Init /\ hist = <<>>
 MNext ==
   /\ Len(hist) < Depth
-  /\ \E w \in {Pick(1..12)}, p \in {IF Pick(1..3) = 1 THEN Pick(Paths) ELSE Pick({"direct", "forward"})}, op \in {Pick(Ops)},
+  /\ \E w \in {IF Len(hist) = Depth - 1 /\ Pick(1..2) = 1 THEN 13 ELSE Pick(1..12)}, p \in {IF Pick(1..3) = 1 THEN Pick(Paths) ELSE Pick({"direct", "forward"})}, op \in {Pick(Ops)},
         v \in {IF Pick(1..6) = 1 THEN "unknown" ELSE IF Pick(1..3) = 1 THEN "second" ELSE "valid"}, n \in {IF Pick(1..4) = 1 THEN Pick(Amts) ELSE Pick({1, 2})}, o \in {IF Pick(1..4) = 1 THEN Pick(Options) ELSE Pick({1, 3, 12})} :
        \/ w = 11 /\ \E vv \in {IF Pick(1..3) = 1 THEN "unknown" ELSE "valid"}, o2 \in {IF Pick(1..4) = 1 THEN Pick(Options) ELSE Pick({2, 4})} :
               Tx2Eff(vv, o, o2) /\ last' = [act |-> "Tx2", res |-> Res(Tx2OK(vv, o, o2)), val |-> vv, opt |-> o, opt2 |-> o2]
        \/ w <= 10 /\ TxEff(p, op, v, n, o) /\ last' = [act |-> "Tx", res |-> Res(TxOK(p, op, v, n, o)), path |-> p, op |-> op, val |-> v, amt |-> n, opt |-> o]
        \/ w = 12 /\ ExpireEff /\ last' = [act |-> "Expire", res |-> "ok"]
+       (* a slash ends the behaviour: only as the last step *)
+       \/ w = 13 /\ Len(hist) = Depth - 1 /\ slashed' = TRUE /\ burned' = burned /\ UNCHANGED <<bal, del, unb, voted, active, redel>> /\ last' = [act |-> "Slash", res |-> "ok"]
   /\ hist' = Append(hist, last')
 MSpec == MInit /\ [][MNext]_<<vars, hist>>
 Emit == Len(hist) = Depth => PrintT(<<"MBT", ToJson(hist)>>)
